@@ -727,6 +727,32 @@ class Gen:
                 return True
         return False
 
+    def fault_outofcpu(self):
+        """nOS-V or base-model event from a thread the kernel has switched out (the emulator's rule; the
+        repository's own test emu-nosv-events-from-outside-cpu pins it for the running state)."""
+        r = self.rng
+        if "kernel" not in self.w.models:
+            return False
+        for th in r.sample(self.th, len(self.th)):
+            if th.state in ("U", "D"):
+                continue
+            if not th.out_of_cpu:
+                self.emit(th, "KCO")
+            pool = ["OB."]
+            if "nosv" in self.w.models and th.active:
+                pool += [p_[0] for p_ in PUSHES["nosv"]][:6] + IGNS["nosv"][:2]
+            if self.w.mark_types:
+                pool.append(None)
+            mcv = r.choice(pool)
+            if mcv is None:
+                ty = r.choice(sorted(self.w.mark_types))
+                mt = self.w.mark_types[ty]
+                self.emit(th, "OM[" if mt["stack"] else "OM=", struct.pack("<qi", 5, ty))
+            else:
+                self.emit(th, mcv)
+            return True
+        return False
+
     TASK_FAULTS_RARE = ["nontop", "nontop_pause", "other_stack", "pause_parallel", "nest_running", "second_body", "rerun",
                         "bad_bodyid", "end_paused", "resume_running", "exec_running"]
 
@@ -863,7 +889,8 @@ class Gen:
                 self.fault("mark:zero")
                 return True
             if k == "mismatch" and mt["stack"] and th.marks[ty]:
-                self.emit(th, "OM]", tf.i64(th.marks[ty][-1] + 1) + tf.i32(ty))
+                # values that differ from the pushed one by one, or only above bit 31
+                self.emit(th, "OM]", tf.i64(th.marks[ty][-1] + r.choice([1, 1, 2 ** 32, -2 ** 32, 2 ** 33, 2 ** 40])) + tf.i32(ty))
                 self.fault("mark:mismatch")
                 return True
             if k == "empty" and mt["stack"] and not th.marks[ty]:
